@@ -413,7 +413,7 @@ theorem errInv_callback (a : Time) (st : St) (g : List Rec) (h : ErrInv st) : Er
     · dsimp only
       split
       · exact ⟨h.slot_head, h.cb_kinds, h.parser_kind⟩
-      · exact errInv_noteErr (st := { st with delivered := st.delivered ++ [g], tr := _, clock := _, handed := _ })
+      · exact errInv_noteErr (st := { st with delivered := st.delivered ++ [g], tr := _, clock := _, handed := _, trHist := _ })
           ⟨h.slot_head, h.cb_kinds, h.parser_kind⟩ (Or.inr ⟨_, rfl⟩)
 
 theorem errInv_foldl (a : Time) (gs : List (List Rec)) (st : St) (h : ErrInv st) :
